@@ -31,6 +31,18 @@ import lib_cdouble as L
 
 PROP = "C06"
 
+ZOO_CLASSES = r'''
+class StrSub(str): pass
+class BytesSub(bytes): pass
+class FloatSub(float): pass
+class HasFloat:
+    def __init__(self, v): self.v = v
+    def __float__(self): return self.v
+class HasIndex:
+    def __index__(self): return 7
+class Plain: pass
+'''
+
 PARSE_SRC = r'''
 # cython: language_level=3
 def f_str(str s): return float(s)
@@ -43,17 +55,7 @@ def f_cd(s):
 def f_str_cd(str s):
     cdef double d = float(s)
     return d * 1.0
-
-class StrSub(str): pass
-class BytesSub(bytes): pass
-class FloatSub(float): pass
-class HasFloat:
-    def __init__(self, v): self.v = v
-    def __float__(self): return self.v
-class HasIndex:
-    def __index__(self): return 7
-class Plain: pass
-'''
+''' + ZOO_CLASSES
 
 CONSTS = [("2", 2.0, "2.0"), ("m2", -2.0, "-2.0"), ("h", 0.5, "0.5"), ("3", 3.0, "3.0"), ("1", 1.0, "1.0"),
           ("m1", -1.0, "-1.0"), ("1h", 1.5, "1.5")]
@@ -174,12 +176,20 @@ def run(tier, seed):
 
     # ---- TLC (two modules) and the two builds, concurrently
     fams = L.TIER_FAMILIES[tier]
-    with concurrent.futures.ThreadPoolExecutor(max_workers=3) as ex:
+    import pickle
+    devc = os.environ.get("C06_DEVCACHE")
+    if devc and os.path.exists(devc + "/%s_%d.pkl" % (tier, seed)):
+        fp, xr = pickle.load(open(devc + "/%s_%d.pkl" % (tier, seed), "rb"))
+        builds = core.build_many([core.BuildSpec("c06parse", PARSE_SRC), core.BuildSpec("c06ops", ops_source())], None, workers or 2)
+    else:
+      with concurrent.futures.ThreadPoolExecutor(max_workers=3) as ex:
         f_fp = ex.submit(core.tlc_or_die, "FloatParse", cfg="FloatParse_" + tier, env={"RECORDS": recf},
                          timeout=1500 if tier == "quick" else 6000, workers=workers, heap="6g")
         f_xr = ex.submit(core.tlc_or_die, "XReal", cfg="XReal_q" if tier == "quick" else "XReal_t", timeout=1500, workers=workers)
         f_b = ex.submit(core.build_many, [core.BuildSpec("c06parse", PARSE_SRC), core.BuildSpec("c06ops", ops_source())], None, workers or 2)
         fp, xr, builds = f_fp.result(), f_xr.result(), f_b.result()
+      if devc:
+        pickle.dump((fp, xr), open(devc + "/%s_%d.pkl" % (tier, seed), "wb"))
     cov["tlc"].append(dict(fp.summary(), module="FloatParse", config=tier))
     cov["tlc"].append(dict(xr.summary(), module="XReal", config="q" if tier == "quick" else "t"))
     for b in builds:
@@ -285,7 +295,7 @@ def run(tier, seed):
            "memoryview(b'1.5')", "HasFloat(2.5)", "HasFloat(FloatSub(3.5))", "HasFloat(3)", "HasFloat('x')", "HasIndex()", "Plain()", "[]",
            "(1,)", "1j", "'\\uff11\\uff12'", "bytearray(b' nan ')", "b''", "''", "bytearray()"]
     ns = {}
-    exec(compile(PARSE_SRC.replace("cdef double d = float(s)", "d = float(s)"), "<zoo>", "exec"), ns)
+    exec(compile(ZOO_CLASSES, "<zoo>", "exec"), ns)
     import warnings
     for z in zoo:
         with warnings.catch_warnings():
